@@ -242,6 +242,8 @@ def decode_block(o):
 
 
 def job(job):
+    if job.get("switched"):
+        return job_switched(job)
     if job.get("after_refusal"):
         return job_after_refusal(job)
     btype, (normalize, validate), forms = job["btype"], tuple(job["cfg"]), job["forms"]
@@ -295,8 +297,46 @@ def job_after_refusal(job):
             "violations": list(viols.values()), "samples": []}
 
 
+def switched_conn(client, normalize, validate):
+    """A connection built - and whose stream 1 has sent its first header block - under the OPPOSITE switches; the application
+    has set them to (normalize, validate) since. A later block on that stream is judged by the switches in force now."""
+    cfg = (("normalize_outbound_headers", not normalize), ("validate_outbound_headers", not validate))
+    conn = pickle.loads(corpus.state_blob(client, "open", cfg))
+    if not client:
+        o = H.call(conn, "send_headers", 1, H.ni(H.RESP))
+        assert o.kind == "ok", o.brief()
+    conn.config.normalize_outbound_headers = normalize
+    conn.config.validate_outbound_headers = validate
+    return conn
+
+
+def job_switched(job):
+    client, (normalize, validate) = job["client"], tuple(job["cfg"])
+    viols, outcomes = {}, {}
+    n = nt = 0
+    for lst in lists_for("trailers", BASES, "full", 1, "d1"):
+        n += 1
+        tag = {"case": {"fam": "switched", "client": client}}
+        if judge("trailers", normalize, validate, lst, "bytes", viols, outcomes, conn=switched_conn(client, normalize, validate), es=True, tag=tag):
+            nt += 1
+    for v in viols.values():
+        v["sig"].pop("after_refused_call", None)
+        v["sig"]["config_switched_midstream"] = True
+    return {"evaluations": n, "outcomes": {"trailers:switched:" + k: v for k, v in outcomes.items()}, "nontrivial": nt,
+            "violations": list(viols.values()), "samples": []}
+
+
 def replay(rec):
     c = rec["case"]
+    if c.get("fam") == "switched":
+        viols, outcomes = {}, {}
+        lst = tuple((bytes.fromhex(a), bytes.fromhex(b)) for a, b in c["list"])
+        judge("trailers", c["normalize"], c["validate"], lst, "bytes", viols, outcomes,
+              conn=switched_conn(c["client"], c["normalize"], c["validate"]), es=True, tag={"case": {}})
+        for v in viols.values():
+            v["sig"].pop("after_refused_call", None)
+            v["sig"]["config_switched_midstream"] = True
+        return list(viols.values())
     if c.get("fam") == "after-refusal":
         viols, outcomes = {}, {}
         client, blob = start_state(c["btype"], c["normalize"], c["validate"])
@@ -346,6 +386,10 @@ def run(ctx):
     for btype in BASES:
         for cfg in ((True, True), (False, True)):
             jobs.append({"after_refusal": True, "btype": btype, "cfg": list(cfg)})
+    # the normalise / validate switches changed by the application after a stream has sent its first header block
+    for client in (True, False):
+        for cfg in CFGS:
+            jobs.append({"switched": True, "client": client, "cfg": list(cfg)})
     _BALLS.clear()
     ctx.fanout("c14-%s" % ctx.tier, jobs, "job", domain="%d distinct (block type, configuration, list) cases" % total)
     ctx.fanouts[-1]["states"] = 3 * len(CFGS)
